@@ -8,6 +8,7 @@ COMMON_TB = [
 FLOAT_TB = "IEEE-754 rounding: theorems are over exact rationals; the f64 instance of the same definitions is compared bit-for-bit with the Rust results on the generated cases"
 CONSTS = {"script": "gen_consts.py"}
 UNITS = {"script": "gen_units.py"}
+UNITS_ALT = {"script": "gen_units.py", "args": ["lean/CookModel/Gen/UnitsAlt.lean", "corpus/C09/alt_units.toml", "GenAlt"]}
 
 CHARTABLE = {"harness": ["chartable", "{LEAN}/CookModel/Gen/CharTable.lean"]}
 SYNTAX_TB = [
@@ -34,7 +35,7 @@ PROPS = {
                         "accuracy in [0,1] and max_den <= 64 (the documented preconditions; callers are checked under C03/C16)"],
     },
     "C09": {
-        "gen": [CONSTS, UNITS],
+        "gen": [CONSTS, UNITS, UNITS_ALT],
         "trusted_base": COMMON_TB + [FLOAT_TB,
             "translators/gen_units.py (units.toml -> Gen/Units.lean: exact decimals + f64 bits, id order and SI expansion of ConverterBuilder, fractions layers resolved as build_fractions_config does); its output is compared row by row with Converter::bundled() by the check",
             "translators/gen_consts.py (the 0.001 slack of best_unit)",
@@ -42,6 +43,16 @@ PROPS = {
             "modelled, not verified: std f64 abs / partial_cmp, Iterator::min_by / rev / find, slice::sort_by (stable); the unit index, Arc identity and all_units[id] are represented by resolved records carrying their id"],
         "assumptions": ["the converter is well formed (Converter.wf: best lists hold units of their own quantity, every unit has a key, fractions configurations within new_approx's documented preconditions); decided for the generated bundled converter (C09_bundled_wf), for other converters it is C16's invariant",
                         "oracle values are finite with magnitude in [1e-9, 1e12] or zero (outside that range f64 overflow/underflow makes 'within floating-point tolerance' meaningless); non-finite and extreme values are compared with the model only"],
+    },
+    "C08": {
+        "gen": [CONSTS, UNITS, UNITS_ALT],
+        "trusted_base": COMMON_TB + [FLOAT_TB,
+            "translators/gen_units.py and gen_consts.py (the converter used for fitting after scaling; see C09)",
+            "the parsed recipe is an input of the model: the harness sends the quantities the real parser produced (value bits, units, Fixed/Linear), so the parser is not part of this check except for the Linear/Fixed decision, which is modelled (mkScalable) and compared on what the generator wrote",
+            "modelled, not verified: serde's JSON image is used by the oracle to state 'everything else is byte-equal'"],
+        "assumptions": ["the converter satisfies the builder's invariants (Converter.Sound; decided for the bundled converter, C09_bundled_sound)",
+                        "oracle: finite positive factors, values and products with magnitude in [1e-9, 1e12] or zero; other factors (0 servings, huge values) are compared with the model only",
+                        "for units with an offset (°C, °F) 'multiplied by f' is read as: the written value is multiplied by f (amount of f·v in the written unit); for all other units this is f times the physical amount"],
     },
     "C10": {
         "gen": [CONSTS, UNITS],
@@ -59,5 +70,86 @@ PROPS = {
         "gen": [CONSTS, CHARTABLE],
         "trusted_base": COMMON_TB + SYNTAX_TB,
         "assumptions": ["theorems cover the lexer (tiling, boundaries) and text assembly (fragment faithfulness, order) for every input; the span arithmetic of the individual block parsers and of the analysis labels is covered by the correspondence run (every span of every event/diagnostic compared with the model) and by the oracle on the implementation, not by a theorem yet"],
+    },
+    "C06": {
+        "gen": [CONSTS, CHARTABLE],
+        "trusted_base": COMMON_TB + SYNTAX_TB + ["external to the model (parameters): serde_yaml (front matter content is not interpreted; metadata and diagnostics that depend on it are excluded from the compared reply), check_std_entry on `>>` values (until the std-metadata model is plugged in its warnings are excluded from the compared reply), unicase folding (table extracted from the real crate on every run), converter key lookup (table extracted from Converter::bundled() on every run)"],
+        "assumptions": ["proved: intermediate-reference resolution stays in range; the other clauses of the invariant (C06_statement, kept at full strength) are decided per run by the invariant oracle on the implementation and by whole-recipe correspondence, not by a theorem yet"],
+    },
+    "C07": {
+        "gen": [CONSTS, CHARTABLE],
+        "trusted_base": COMMON_TB + SYNTAX_TB + ["external to the model (parameters): serde_yaml (front matter content is not interpreted; metadata and diagnostics that depend on it are excluded from the compared reply), check_std_entry on `>>` values (until the std-metadata model is plugged in its warnings are excluded from the compared reply), unicase folding (table extracted from the real crate on every run), converter key lookup (table extracted from Converter::bundled() on every run)"],
+        "assumptions": ["proved: validity definition, parse-error short-circuit, output kept without parse errors; soundness on well-formed recipes and completeness/placement of the 33 catalogued constructs are tested (planted constructs, oracle + model correspondence of every label), not proved"],
+    },
+    "C01": {
+        "gen": [CONSTS, CHARTABLE],
+        "trusted_base": COMMON_TB + SYNTAX_TB + ["external to the model (parameters): serde_yaml (front matter content is not interpreted; metadata and diagnostics that depend on it are excluded from the compared reply), check_std_entry on `>>` values (until the std-metadata model is plugged in its warnings are excluded from the compared reply), unicase folding (table extracted from the real crate on every run), converter key lookup (table extracted from Converter::bundled() on every run)"],
+        "assumptions": ["proved: value-level read-back (integers, decimals with arbitrary blank/comment padding), range gating, plain text runs; composition over components/steps/blocks/analysis (C01_statement) is tested on random abstract recipes x 4 spelling styles, not proved",
+                        "the spelling styles vary only what the documented syntax leaves free (DESIGN.md section 6 C01): spacing around tokens, comments between words, line wrapping in step text, CRLF, percent sign vs space before the unit under ADVANCED_UNITS"],
+    },
+    "C02": {
+        "gen": [CONSTS, CHARTABLE],
+        "trusted_base": COMMON_TB + SYNTAX_TB + ["external to the model (parameters): serde_yaml (front matter content is not interpreted; metadata and diagnostics that depend on it are excluded from the compared reply), check_std_entry on `>>` values (until the std-metadata model is plugged in its warnings are excluded from the compared reply), unicase folding (table extracted from the real crate on every run), converter key lookup (table extracted from Converter::bundled() on every run)"],
+        "assumptions": ['proved: gate lemmas (modifiers / range / alias gates off read as core); the main clause and the per-flag readings are tested over all 256 raw patterns against oracle and model'],
+    },
+    "C03": {
+        "gen": [CONSTS, CHARTABLE],
+        "trusted_base": COMMON_TB + SYNTAX_TB + ["external to the model (parameters): serde_yaml (front matter content is not interpreted; metadata and diagnostics that depend on it are excluded from the compared reply), check_std_entry on `>>` values (until the std-metadata model is plugged in its warnings are excluded from the compared reply), unicase folding (table extracted from the real crate on every run), converter key lookup (table extracted from Converter::bundled() on every run)"] + ["the worker subprocess / watchdog runner of the harness (10 s per case)"],
+        "assumptions": ["proved: text assembly never asserts on lexed runs, blocks handed to BlockParser::new are non-empty and without trailing newline, pull_line makes progress; the rest of C03_statement (the panic flag of the model is never set) is compared with the real code's panics per run", 'cannot be exhibited by the model, only observed by the worker/watchdog runs: stack exhaustion, allocation failure, time complexity, panics inside dependencies'],
+    },
+    "C05": {
+        "gen": [CONSTS, CHARTABLE],
+        "trusted_base": COMMON_TB + SYNTAX_TB + ["external to the model (parameters): serde_yaml (front matter content is not interpreted; metadata and diagnostics that depend on it are excluded from the compared reply), check_std_entry on `>>` values (until the std-metadata model is plugged in its warnings are excluded from the compared reply), unicase folding (table extracted from the real crate on every run), converter key lookup (table extracted from Converter::bundled() on every run)"],
+        "assumptions": ['proved: pull_line loses no token; every letter/digit of a non-comment token of a text run is in the assembled text; the whole-document clause is tested (oracle on event spans + event correspondence)'],
+    },
+    "C14": {
+        "gen": [CONSTS, CHARTABLE],
+        "trusted_base": COMMON_TB + SYNTAX_TB + ["external to the model (parameters): serde_yaml (front matter content is not interpreted; metadata and diagnostics that depend on it are excluded from the compared reply), check_std_entry on `>>` values (until the std-metadata model is plugged in its warnings are excluded from the compared reply), unicase folding (table extracted from the real crate on every run), converter key lookup (table extracted from Converter::bundled() on every run)"],
+        "assumptions": ['proved: the metadata-only scanner only ever hands `>>` lines to metadata_entry and emits exactly the front-matter event when there is front matter; equality of the resulting metadata is tested (oracle on both real parses + model)'],
+    },
+    "C17": {
+        "gen": [CONSTS, CHARTABLE],
+        "trusted_base": COMMON_TB + SYNTAX_TB + ["external to the model (parameters): serde_yaml (front matter content is not interpreted; metadata and diagnostics that depend on it are excluded from the compared reply), check_std_entry on `>>` values (until the std-metadata model is plugged in its warnings are excluded from the compared reply), unicase folding (table extracted from the real crate on every run), converter key lookup (table extracted from Converter::bundled() on every run)"],
+        "assumptions": ['proved at text-assembly level for all token runs and offsets (comment insertion, trailing comment/space, LF vs CRLF newline tokens); the end-to-end clause (recipe equal up to whitespace in step text, validity equal) is tested on well-formed recipes and filtered soups'],
+    },
+    "C18": {
+        "gen": [CONSTS, CHARTABLE],
+        "trusted_base": COMMON_TB + SYNTAX_TB + ["external to the model (parameters): serde_yaml (front matter content is not interpreted; metadata and diagnostics that depend on it are excluded from the compared reply), check_std_entry on `>>` values (until the std-metadata model is plugged in its warnings are excluded from the compared reply), unicase folding (table extracted from the real crate on every run), converter key lookup (table extracted from Converter::bundled() on every run)"],
+        "assumptions": ['proved for the instance model: replies are independent of history and of any interleaving of calls; the model has no state other than the lazily built fraction table, which parsing never reads', 'cannot be exhibited by the model: data races, memory-model effects, Sync soundness of dependencies, RandomState seeding; observed only (2..16 threads sharing one parser; CooklangParser: Send + Sync is checked by the compiler in the harness)'],
+    },
+    "C13": {
+        "gen": [CONSTS, {"script": "gen_stdmeta.py"}],
+        "trusted_base": COMMON_TB + [FLOAT_TB,
+            "translators/gen_stdmeta.py (scrapes the compact-format separators and hour factor, the hard-coded time units, the minute lookup names and the std key tables from src/metadata.rs)",
+            "Basic/Decimal.lean: decimal text -> nearest f64 (used by the f64 instance for number literals; tied to str::parse::<f64> by the correspondence ops)",
+            "modelled, not verified: serde_yaml (the harness hands the model the parsed value: as_u64 and to_string of numbers are inputs), char::is_alphabetic (input: the alphabetic characters of the text), the converter (input: the time units, their ratios and the name index as the real Converter reports them), str routines split/trim/split_whitespace/parse re-implemented in the model and tied by the ops sm_words, sm_trim, sm_u32, sm_f64syn"],
+        "assumptions": ["time theorems are over exact rationals and hold for every converter whose time units have a non-zero ratio",
+                        "char::is_alphabetic(':') is false",
+                        "std saturates decimal exponents beyond 65536 digits of magnitude; the model does not: irrelevant for texts shorter than 65000 characters",
+                        "the oracle stays silent where the documentation does: blank time texts, trimming of quoted list entries in tags, signs/exponents in numbers of minutes, text glued to a servings number"],
+    },
+    "C19": {
+        "gen": [],
+        "pre_build": ["prep_bindings.py"],   # scratch copy of $REPO/bindings with an rlib (harness/target/bindings_copy)
+        "features": ["ffi"],
+        "trusted_base": COMMON_TB + [FLOAT_TB,
+            "translators/prep_bindings.py: the bindings crate is compiled from a copy of the working tree's bindings/src with only its manifest edited (package renamed, \"lib\" crate type added, core path made absolute)",
+            "uniffi 0.28 record/enum (de)serialisation (FfiConverter::write/try_read) is how the harness builds and reads `Amount`/`Ingredient` values whose fields are crate-private; uniffi scaffolding itself is not modelled",
+            "the recipe S-expression sent to the model is produced from the real ScaledRecipe through its public accessors (harness/src/recipe_sexp.rs)"],
+        "assumptions": ["mirror theorems: the core recipe's item indices are in range (C06's invariant) and it has at most 2^32 components of each kind (`usize as u32` in into_item)",
+                        "combination theorems are over exact rationals and lists of at most 2^32 ingredients; text amounts are concatenated in input order and are outside the order-independence statement",
+                        "the view's metadata map is not modelled (the property does not mention it)",
+                        "Range amounts, Number::Fraction values and inline-quantity items cannot be produced through parse_recipe (canonical parser, empty converter): those branches of into_simple_recipe are covered by the theorems on the model only; ranges in combine_ingredients are exercised through the FFI wire format"],
+    },
+    "C15": {
+        "gen": [],
+        "trusted_base": COMMON_TB + [
+            "serde_json number printing/parsing: the theorems assume parse(print x) = x for finite f64 (serde_json built with `float_roundtrip`, enabled in harness/Cargo.toml); the correspondence compares f64 by bit pattern after re-parsing the printed literal with str::parse",
+            "serde / serde_derive / serde_json / serde_yaml / bitflags internals are modelled (shapes of the derived impls), not verified; the deserializers of the model read a document the way the derived ones do (field lookup by key, tag dispatch, null = None, flatten) but are only proved against the model's own encoder; that the real from_str inverts the real to_string is what the oracle evaluates on every generated recipe",
+            "harness/src/props/c15.rs canon_json (rewrites the real JSON text: strings as code points, floats as bit patterns) and harness/src/recipe_sexp.rs (typed recipe to S-expression through public accessors; `reference_target` of a definition is not observable and sent as none)"],
+        "assumptions": ["every number of the recipe is finite (the property's premise)",
+                        "modifier bits are the five declared flags (bitflags prints other bits in hexadecimal, not modelled)",
+                        "Metadata.map is an opaque JSON object in the model: the theorems cover metadata that is JSON-representable (string keys at every depth, no YAML tags); front matter outside that class is accepted by the parser and does not survive serialization (known finding F-C15-1, re-found by the oracle every run); equality of the YAML values read back is evaluated by the oracle on the implementation only",
+                        "u32/usize ranges are not modelled (naturals)"],
     },
 }
